@@ -1112,93 +1112,109 @@ func (oc *obligCtx) assertByShape(fn *ssa.Function, in ssa.Instruction, cond ssa
 		}
 		return false, ""
 	}
-	// helper of an embedded base type: check every call site
-	n := oc.c.CHA().Nodes[fn]
-	if n == nil || len(n.In) == 0 {
-		return false, ""
+	// helper of an embedded base type: check every call site; a call site in another helper of the
+	// same base type (on the same receiver) stands for that helper's call sites, with the
+	// constraints known at both calls
+	type cc struct {
+		op token.Token
+		k  int64
 	}
 	sites := 0
-	for _, e := range n.In {
-		caller := e.Caller.Func
-		if caller.Synthetic != "" && !oc.c.modFuncSet[caller] {
-			// promotion wrapper of an embedding type: reachable only through method values /
-			// interfaces the module does not use for these helpers; its own callers are checked
-			if wn := oc.c.CHA().Nodes[caller]; wn == nil || len(wn.In) == 0 {
-				continue
+	var collect func(h *ssa.Function, inherited []cc, depth int) bool
+	collect = func(h *ssa.Function, inherited []cc, depth int) bool {
+		n := oc.c.CHA().Nodes[h]
+		if n == nil || len(n.In) == 0 || depth > 4 {
+			return false
+		}
+		for _, e := range n.In {
+			caller := e.Caller.Func
+			if caller.Synthetic != "" && !oc.c.modFuncSet[caller] {
+				// promotion wrapper of an embedding type: reachable only through method values /
+				// interfaces the module does not use for these helpers; its own callers are checked
+				if wn := oc.c.CHA().Nodes[caller]; wn == nil || len(wn.In) == 0 {
+					continue
+				}
+				return false
 			}
-			return false, ""
-		}
-		if !oc.c.modFuncSet[caller] || e.Site == nil {
-			return false, ""
-		}
-		root := caller
-		for root.Parent() != nil {
-			root = root.Parent()
-		}
-		if root.Signature.Recv() == nil {
-			return false, ""
-		}
-		ct := namedOf(root.Signature.Recv().Type())
-		if ct == nil {
-			return false, ""
-		}
-		if _, isRT := oc.prov.typeIsRuntime(ct); !isRT {
-			return false, ""
-		}
-		// narrow by facts at the call: comparisons of len(<recv>.node.Children) with constants
-		ci, _ := e.Site.(ssa.Instruction)
-		f := FactsAt(ci)
-		type cc struct {
-			op token.Token
-			k  int64
-		}
-		var cons []cc
-		for _, cm := range f.Cmps {
-			l, op, r := cm.L, cm.Op, cm.R
-			if r.isLen() && l.IsConst {
-				l, r = r, l
-				op = flipOp(op)
+			if !oc.c.modFuncSet[caller] || e.Site == nil {
+				return false
 			}
-			if !l.isLen() || !r.IsConst || !strings.HasSuffix(l.LenPath, ".node.Children") || strings.Contains(l.LenPath, "Children[") {
-				continue
+			root := caller
+			for root.Parent() != nil {
+				root = root.Parent()
 			}
-			cons = append(cons, cc{op, r.K - l.Off})
-		}
-		allowed := func(n int64) bool {
-			for _, x := range cons {
-				switch x.op {
-				case token.EQL:
-					if n != x.k {
+			if root.Signature.Recv() == nil {
+				return false
+			}
+			ct := namedOf(root.Signature.Recv().Type())
+			if ct == nil {
+				return false
+			}
+			// narrow by facts at the call: comparisons of len(<recv>.node.Children) with constants
+			ci, _ := e.Site.(ssa.Instruction)
+			f := FactsAt(ci)
+			cons := append([]cc{}, inherited...)
+			for _, cm := range f.Cmps {
+				l, op, r := cm.L, cm.Op, cm.R
+				if r.isLen() && l.IsConst {
+					l, r = r, l
+					op = flipOp(op)
+				}
+				if !l.isLen() || !r.IsConst || !strings.HasSuffix(l.LenPath, ".node.Children") || strings.Contains(l.LenPath, "Children[") {
+					continue
+				}
+				cons = append(cons, cc{op, r.K - l.Off})
+			}
+			if _, isRT := oc.prov.typeIsRuntime(ct); !isRT {
+				args := e.Site.Common().Args
+				if ct == recvT && caller == root && len(args) > 0 && len(caller.Params) > 0 && rootOf(args[0]) == ssa.Value(caller.Params[0]) && accessPath(args[0]) == caller.Params[0].Name() {
+					if !collect(caller, cons, depth+1) {
 						return false
 					}
-				case token.NEQ:
-					if n == x.k {
-						return false
-					}
-				case token.GTR:
-					if !(n > x.k) {
-						return false
-					}
-				case token.GEQ:
-					if !(n >= x.k) {
-						return false
-					}
-				case token.LSS:
-					if !(n < x.k) {
-						return false
-					}
-				case token.LEQ:
-					if !(n <= x.k) {
-						return false
+					continue
+				}
+				return false
+			}
+			allowed := func(n int64) bool {
+				for _, x := range cons {
+					switch x.op {
+					case token.EQL:
+						if n != x.k {
+							return false
+						}
+					case token.NEQ:
+						if n == x.k {
+							return false
+						}
+					case token.GTR:
+						if !(n > x.k) {
+							return false
+						}
+					case token.GEQ:
+						if !(n >= x.k) {
+							return false
+						}
+					case token.LSS:
+						if !(n < x.k) {
+							return false
+						}
+					case token.LEQ:
+						if !(n <= x.k) {
+							return false
+						}
 					}
 				}
+				return true
 			}
-			return true
+			if !exact(oc.prov.KindsOf(ct), allowed) {
+				return false
+			}
+			sites++
 		}
-		if !exact(oc.prov.KindsOf(ct), allowed) {
-			return false, ""
-		}
-		sites++
+		return true
+	}
+	if !collect(fn, nil, 0) {
+		return false, ""
 	}
 	return true, fmt.Sprintf("AST shape: at all %d call sites the calling runtime's node kinds have exactly %d children", sites, k)
 }
